@@ -2,7 +2,9 @@ package props
 
 import (
 	"fmt"
+	"go/ast"
 	"go/token"
+	"go/types"
 	"sort"
 	"strings"
 
@@ -68,7 +70,6 @@ func runC24(c *core.Ctx) {
 	// who receives / sends
 	recvIn, sendIn := map[string]bool{}, map[string]bool{}
 	// a helper method called only from run is run's code
-	defer func() {}()
 	liftToRun := func(set map[string]bool) {
 		for name := range set {
 			if name == "run" {
@@ -138,8 +139,109 @@ func runC24(c *core.Ctx) {
 				flush = cl
 			}
 		}
+		// the flush step as a private method of Queue that takes the pending
+		// slice and returns the slice to continue with (value form)
+		valueForm := false
+		if flush == nil {
+			for _, m := range methods {
+				if m.Name() == "run" || ast.IsExported(m.Name()) {
+					continue
+				}
+				sends := false
+				an.Instrs(m, func(in ssa.Instruction) {
+					if s, ok := in.(*ssa.Send); ok && isChanField(s.Chan, "sendCh") {
+						sends = true
+					}
+				})
+				if sends && len(m.Params) == 2 && m.Signature.Results().Len() == 1 {
+					flush, valueForm = m, true
+				}
+			}
+			// the instance run actually calls
+			if flush != nil {
+				an.Instrs(run, func(in ssa.Instruction) {
+					if call, ok := in.(*ssa.Call); ok {
+						if f := call.Common().StaticCallee(); f != nil && originOf(f) == originOf(flush) && len(f.Blocks) > 0 {
+							flush = f
+						}
+					}
+				})
+			}
+		}
+		isFlush := func(call *ssa.Call) bool {
+			switch v := call.Common().Value.(type) {
+			case *ssa.MakeClosure:
+				return v.Fn == ssa.Value(flush)
+			case *ssa.Function:
+				return v == flush || (valueForm && originOf(v) == originOf(flush))
+			}
+			// closure stored in a local: any call of a func value defined by MakeClosure(flush)
+			return an.Mentions(call.Common().Value, func(y ssa.Value) bool {
+				mc, ok := y.(*ssa.MakeClosure)
+				return ok && mc.Fn == ssa.Value(flush)
+			})
+		}
 		if flush == nil {
 			c.Bad("C24.c", "DOM", "Queue.run:flush-closure", c.P.Pos(run.Pos()), "no closure in run sends on sendCh", nil)
+		} else if valueForm {
+			// merge(param) → send → return param[:0]; every call in run continues with the result
+			var merge, send ssa.Instruction
+			var trunc *ssa.Slice
+			pend := flush.Params[1]
+			fromPend := func(v ssa.Value) bool {
+				return an.Mentions(v, func(y ssa.Value) bool { return y == ssa.Value(pend) })
+			}
+			an.Instrs(flush, func(in ssa.Instruction) {
+				if call, ok := in.(*ssa.Call); ok && strings.HasSuffix(an.CalleeID(call), "queue.mergeQueued") && fromPend(call.Common().Args[0]) {
+					merge = in
+				}
+				if s, ok := in.(*ssa.Send); ok && isChanField(s.Chan, "sendCh") {
+					send = in
+				}
+				if sl, ok := in.(*ssa.Slice); ok && sl.High != nil && fromPend(sl.X) {
+					if k, ok := an.ConstInt(sl.High); ok && k == 0 {
+						trunc = sl
+					}
+				}
+			})
+			ok := merge != nil && send != nil && trunc != nil && an.Dominates(merge, send) && an.Dominates(send, trunc)
+			if ok {
+				ok = an.Unwrap(send.(*ssa.Send).X) == merge.(ssa.Value)
+			}
+			if ok {
+				// every return after the send hands back the truncated slice
+				an.Instrs(flush, func(in ssa.Instruction) {
+					r, isRet := in.(*ssa.Return)
+					if !isRet || !ok {
+						return
+					}
+					if !an.MentionsValue(r.Results[0], trunc) && an.ReachableFrom(send, in, nil) {
+						ok = false
+					}
+				})
+			}
+			if ok {
+				// in run the result replaces the pending slice
+				an.Instrs(run, func(in ssa.Instruction) {
+					call, isCall := in.(*ssa.Call)
+					if !isCall || !isFlush(call) {
+						return
+					}
+					used := false
+					for _, r := range *call.Referrers() {
+						switch r.(type) {
+						case *ssa.Phi, *ssa.Store:
+							used = true
+						}
+					}
+					if !used {
+						ok = false
+					}
+				})
+			}
+			c.Result(ok, "C24.c", "DOM", "Queue.run:flush:merge-send-truncate", c.P.Pos(flush.Pos()),
+				"the flush step sends mergeQueued(pending) and run continues with the truncated slice it returns",
+				"the flush step does not send the merged request and then empty the pending slice (a batch could be lost, duplicated or grow past the batch size)", nil)
 		} else {
 			// flush: mergeQueued → send → truncate, in that order, on the non-nil edge
 			var merge, send, trunc ssa.Instruction
@@ -186,6 +288,20 @@ func runC24(c *core.Ctx) {
 				pendingCell = st.Addr
 			}
 		})
+		// value form: the pending slice is an SSA value, not a captured cell
+		appendVal := map[ssa.Instruction]ssa.Value{}
+		if valueForm && len(appends) == 0 {
+			an.Instrs(run, func(in ssa.Instruction) {
+				call, ok := in.(*ssa.Call)
+				if !ok {
+					return
+				}
+				if bi, ok := call.Common().Value.(*ssa.Builtin); ok && bi.Name() == "append" && types.Identical(call.Type(), flush.Params[1].Type()) {
+					appends = append(appends, in)
+					appendVal[in] = call
+				}
+			})
+		}
 		c.Count("appends to the pending slice in run", len(appends))
 		c.Min("appends to the pending slice in run", 1)
 		for i, ap := range appends {
@@ -207,6 +323,9 @@ func runC24(c *core.Ctx) {
 					if !ok || bi.Name() != "len" {
 						return false
 					}
+					if av := appendVal[ap]; av != nil {
+						return call.Common().Args[0] == av
+					}
 					u, ok := call.Common().Args[0].(*ssa.UnOp)
 					return ok && u.X == pendingCell
 				}
@@ -225,20 +344,7 @@ func runC24(c *core.Ctx) {
 				h := an.Ungated(an.CutSpec{Fn: run, StartBlocks: []*ssa.BasicBlock{tb},
 					GateInstr: func(x ssa.Instruction) bool {
 						call, ok := x.(*ssa.Call)
-						if !ok {
-							return false
-						}
-						switch v := call.Common().Value.(type) {
-						case *ssa.MakeClosure:
-							return v.Fn == ssa.Value(flush)
-						case *ssa.Function:
-							return v == flush
-						}
-						// closure stored in a local: any call of a func value defined by MakeClosure(flush)
-						return an.Mentions(call.Common().Value, func(y ssa.Value) bool {
-							mc, ok := y.(*ssa.MakeClosure)
-							return ok && mc.Fn == ssa.Value(flush)
-						})
+						return ok && flush != nil && isFlush(call)
 					},
 					Sink: func(x ssa.Instruction) bool { _, ok := x.(*ssa.Select); return ok }})
 				if len(h) == 0 {
@@ -253,19 +359,7 @@ func runC24(c *core.Ctx) {
 		if flush != nil {
 			isFlushCall := func(x ssa.Instruction) bool {
 				call, ok := x.(*ssa.Call)
-				if !ok {
-					return false
-				}
-				switch v := call.Common().Value.(type) {
-				case *ssa.MakeClosure:
-					return v.Fn == ssa.Value(flush)
-				case *ssa.Function:
-					return v == flush
-				}
-				return an.Mentions(call.Common().Value, func(y ssa.Value) bool {
-					mc, ok := y.(*ssa.MakeClosure)
-					return ok && mc.Fn == ssa.Value(flush)
-				})
+				return ok && isFlush(call)
 			}
 			toSelect := func(x ssa.Instruction) bool { _, ok := x.(*ssa.Select); return ok }
 			var sel *ssa.Select
